@@ -19,6 +19,39 @@ def main():
     c.static_theorems()
     rng = c.rng
     quick = c.tier == "quick"
+    # ---------------- tie A for the declaration itself: translate's assignments read off the source (fail-closed) are the model's four stores
+    import ast, re
+    try:
+        tree = ast.parse(open(os.path.join(REPO, "src", "measured", "conversions.py")).read())
+        fn = next(f for f in tree.body if isinstance(f, ast.FunctionDef) and f.name == "translate")
+        if [a.arg for a in fn.args.args] != ["scale", "zero"]: raise ValueError("translate: parameters are not (scale, zero)")
+        bound, shapes = {}, []
+        for st in fn.body:
+            src_ = ast.unparse(st)
+            m = re.fullmatch(r"(degree|offset) = zero\.(unit|magnitude)", src_)
+            if m:
+                if shapes: raise ValueError("translate: an operand is rebound after a store")
+                bound[m.group(1)] = m.group(2); continue
+            if "_ratios" in src_ or "_offsets" in src_:
+                m = re.fullmatch(r"_(ratios|offsets)\[(degree|scale)\]\[(degree|scale)\] = (1|-offset|\+offset|offset)", src_)
+                if not m: raise ValueError(f"translate: a store the declaration model does not have: {src_[:90]}")
+                if bound != {"degree": "unit", "offset": "magnitude"}: raise ValueError("translate: a store before degree = zero.unit and offset = zero.magnitude")
+                w, x, y, v = m.groups()
+                if (w == "ratios") != (v == "1"): raise ValueError(f"translate: {src_[:90]}")
+                shapes.append(f"({'TRatios' if w == 'ratios' else 'TOffsets'}, {'SA' if x == 'degree' else 'SB'}, {'SA' if y == 'degree' else 'SB'}, "
+                              f"{'VOne' if v == '1' else 'VNeg' if v == '-offset' else 'VPos'})")
+        txt = f"""From Coq Require Import List Bool. Import ListNotations.
+From Measured Require Import Model.Declare.
+Definition translate_stores : list tstore_shape := {clist(shapes)}.
+Lemma translate_stores_shipped : tshapes_eqb translate_stores shipped_tstores = true.
+Proof. vm_compute. reflexivity. Qed.
+"""
+        ok, log = c.run_coq({"Gen_trshape": txt})["Gen_trshape"]
+        c.oblige("Gen_trshape.translate_stores_shipped (translate's assignments read off the source are the model's four stores: ratio 1 both ways, "
+                 "the zero point with opposite signs; hypothesis of C10_source_stores_are_model_translate)", ok, log[-500:])
+        c.cov["translate_stores"] = shapes
+    except Exception as ex:
+        c.oblige("translator of conversions.translate", False, str(ex))
     exp0 = impl("export_worker.py", {})
     prefixes = {n: p for n, p in exp0["prefix_by_name"].items() if not isinstance(p, dict)}
     pv = {n: (Fraction(1) if p[0] == 0 else Fraction(p[0]) ** p[1]) for n, p in prefixes.items()}
